@@ -143,6 +143,7 @@ pub fn check(plans: &[Plan], recs: &[RunRec]) -> Outcome {
     let mut out = Outcome::default();
     common_stats(plan, rec, &mut out.stats);
     super::check_input_blocked(rec, &mut out);
+    super::check_input_panic(rec, &mut out);
     let h = history(rec);
     let views = go_views(&h);
     let enum_pair = plan.params.get("enum_pair").and_then(super::super::json::J::as_u64);
